@@ -8,6 +8,7 @@ from .. import comp, e1, gen, harness
 from . import base
 
 PROP = "C13"
+SOLVER = {'functions_encoded': ['compile_code on split and merged sources (executed)', 'emitted IC10 pairs -> vf.ic10.Machine, trace equivalence; split program vs vf.source.Interp']}
 HDR = base.witness.HDR
 
 ASSUMPTIONS = [
